@@ -140,11 +140,19 @@ def shouldEscapePath (c : Char) : Bool :=
 /-- `escape(s, encodePath)` -/
 def escapePath (s : Bytes) : Bytes := s.flatMap fun c => if shouldEscapePath c then pctEncode c else [c]
 
+/-- an octet that may stand in a path as it is: what `validEncoded(s, encodePath)` accepts, and the octets
+    `escapedPath` of `requestcontext/extract_url.go` leaves alone (`A-Za-z0-9-_.~!$&'()*+,;=:@/[]%`) -/
+def pathCharOK (c : Char) : Bool :=
+  c = '!' || c = '$' || c = '&' || c = '\'' || c = '(' || c = ')' || c = '*' || c = '+' || c = ',' || c = ';' ||
+  c = '=' || c = ':' || c = '@' || c = '[' || c = ']' || c = '%' || !shouldEscapePath c
+
 /-- `validEncoded(s, encodePath)` -/
-def validEncodedPath (s : Bytes) : Bool :=
-  s.all fun c =>
-    c = '!' || c = '$' || c = '&' || c = '\'' || c = '(' || c = ')' || c = '*' || c = '+' || c = ',' || c = ';' ||
-    c = '=' || c = ':' || c = '@' || c = '[' || c = ']' || c = '%' || !shouldEscapePath c
+def validEncodedPath (s : Bytes) : Bool := s.all pathCharOK
+
+/-- the path *as received*: octets that may not stand in a path are percent-encoded (upper-case hex), every
+    escape the client wrote is kept as written (the loop of `escapedPath` in `requestcontext/extract_url.go`;
+    `Heimdall.receivedPathL` of `Base/UrlEscape.lean` is the same function, compared by the driver on every case) -/
+def receivedL (s : Bytes) : Bytes := s.flatMap fun c => if pathCharOK c then [c] else pctEncode c
 
 /-- `url.PathUnescape` with the error discarded (`path, _ = url.PathUnescape(rawPath)`) -/
 def unescapeOrEmpty (s : Bytes) : Bytes := (pathUnescapeL s).getD []
@@ -329,10 +337,14 @@ structure Impl where
   canonHeader  : Bool   -- C13-3: `Header(name)` canonicalises the name, `Host` is the request host
   stdCookies   : Bool   -- C13-4: cookies parsed as `net/http` does
   bodyFallback : Bool   -- C13-5: `body` attribute used when `raw_body` is empty; no body ⇒ ""
+  encodesPath  : Bool   -- C13-6 (proposed): octets that may not stand in a path are percent-encoded in the raw path
 deriving Repr, DecidableEq
 
-def Impl.fixed : Impl := ⟨true, true, true, true, true⟩
-def Impl.original : Impl := ⟨false, false, false, false, false⟩
+/-- the code of /repo: `fixes/C13-1 … C13-5` applied -/
+def Impl.fixed : Impl := ⟨true, true, true, true, true, false⟩
+/-- … with the proposed `fixes/C13-6` as well -/
+def Impl.next : Impl := ⟨true, true, true, true, true, true⟩
+def Impl.original : Impl := ⟨false, false, false, false, false, false⟩
 
 inductive EP where
   | decision | proxy | envoy
@@ -350,9 +362,13 @@ def untrustedHeaders : List Bytes :=
 def stripUntrusted (h : List (Bytes × List Bytes)) : List (Bytes × List Bytes) :=
   h.filter fun kv => !untrustedHeaders.contains kv.1
 
+/-- `escapedPath(uri)` of `extract_url.go`: `EscapedPath()` if Go found the default encoding (`RawPath` empty),
+    otherwise the received spelling with the forbidden octets encoded -/
+def httpEscapedPath (u : GoURL) : Bytes := if u.rawPath.isEmpty then u.escapedPath else receivedL u.rawPath
+
 /-- `extractMethod` + `extractURL`; the `X-Forwarded-*` headers they would read have been removed -/
 def httpObj (r : HttpReq) : ReqObj :=
-  let rawPath := r.url.escapedPath
+  let rawPath := httpEscapedPath r.url
   { method := r.method,
     url := { scheme := if r.tls then b!"https" else b!"http", host := r.host,
              path := unescapeOrEmpty rawPath, rawPath, rawQuery := r.url.rawQuery },
@@ -382,7 +398,8 @@ def envoyHeaders (c : CheckReq) : List (Bytes × Bytes) := c.headers.map fun kv 
 def envoyURL (I : Impl) (c : CheckReq) : URLv :=
   if I.splitsTarget then
     let r := cut '?' c.path
-    { scheme := c.scheme, host := c.host, path := unescapeOrEmpty r.1, rawPath := r.1,
+    let rawPath := if I.encodesPath then receivedL r.1 else r.1
+    { scheme := c.scheme, host := c.host, path := unescapeOrEmpty rawPath, rawPath,
       rawQuery := if c.query.isEmpty then r.2.1 else c.query }
   else
     { scheme := c.scheme, host := c.host, path := c.path, rawPath := [], rawQuery := c.query }
